@@ -13,6 +13,74 @@ TITLE = "typed parsing enforces the KSI schema; unknown elements obey the critic
 F = {v: k for k, v in FLAGS.items()}
 
 
+def template_scenario(prog, template, seq):
+    """template: [(tag, flags, multiple)], seq: [(tag, noncritical)] -> returned status"""
+    fe = prog.fn("extractGenerator", "tlv_template.c")
+    pn = [p["n"] for p in fe.params]
+    ctxp, payp, genctx, tmplp, genp, trp, trlen, trsize = pn
+    OBJ = 1
+    inputs = {ctxp: Ptr("ctx"), payp: Ptr("payload"), genctx: Ptr("gctx"), tmplp: Ptr("T"), genp: Ptr("gen"), trp: Ptr("tr"), trlen: 0, trsize: 15}
+    for i, (tag, fl, mult) in enumerate(template):
+        inputs["T[%d].tag" % i] = tag
+        inputs["T[%d].flags" % i] = fl
+        inputs["T[%d].multiple" % i] = mult
+        inputs["T[%d].type" % i] = OBJ
+        inputs["T[%d].getValue" % i] = Ptr("get%d" % i)
+        inputs["T[%d].descr" % i] = Ptr("d%d" % i)
+    for j, (tag, nc) in enumerate(seq):
+        inputs["tlv%d->tag" % j] = tag
+    pos = [0]
+    seen = {}
+
+    def fallback(I, p, node, name, args, cv):
+        if name is None and isinstance(cv, Ptr) and cv.what == "gen":
+            key = lvalue_key(strip(node["a"][1])["e"], I.fn)
+            j = pos[0]
+            pos[0] += 1
+            I.write(p, key, Ptr("tlv%d" % j) if j < len(seq) else 0)
+            return 0
+        if name is None and isinstance(cv, Ptr) and cv.what.startswith("get"):
+            i = int(cv.what[3:])
+            a1 = strip(node["a"][1])
+            while isinstance(a1, dict) and a1.get("k") == "cast":
+                a1 = strip(a1["e"])
+            key = lvalue_key(a1["e"], I.fn) if isinstance(a1, dict) and a1.get("k") == "un" else None
+            if key:
+                I.write(p, key, Ptr("val") if seen.get(i) else 0)
+            return 0
+        return TOP
+
+    def extract_obj(I, p, node, args):
+        # &tmpl[i]  -> which entry?
+        a = args[1]
+        if isinstance(a, Ptr) and isinstance(a.what, str) and a.what.startswith("T["):
+            seen[int(a.what[2:a.what.index("]")])] = True
+        return 0
+
+    def tag_of(I, p, node, args):
+        a = args[0]
+        if isinstance(a, Ptr) and a.what.startswith("tlv"):
+            return seq[int(a.what[3:])][0]
+        return TOP
+
+    def noncrit(I, p, node, args):
+        a = args[0]
+        if isinstance(a, Ptr) and a.what.startswith("tlv"):
+            return seq[int(a.what[3:])][1]
+        return TOP
+
+    def mset(I, p, node, args):
+        for k in range(8):
+            I.write(p, "templateHit[%d]" % k, 0)
+        return TOP
+    ov = {"getTemplateLength": lambda I, p, n, a: len(template), "extractObject": extract_obj, "extractComposite": extract_obj,
+          "KSI_TLV_getTag": tag_of, "KSI_TLV_isNonCritical": noncrit, "memset": mset, "track_str": lambda I, p, n, a: Ptr("s"),
+          "KSI_snprintf": lambda I, p, n, a: 0, "KSI_TLV_free": lambda I, p, n, a: TOP}
+    I = Interp(fe, inputs=inputs, call_model=succeed_model(prog, ov, fallback), on_unknown="stop", prog=prog, loop_bound=12)
+    paths = I.run()
+    return paths
+
+
 def run(prog, chk):
     utf8_table(prog, chk)
     _run(prog, chk)
@@ -76,67 +144,7 @@ def _run(prog, chk):
     OBJ = 1
 
     def scenario(template, seq):
-        """template: [(tag, flags, multiple)], seq: [(tag, noncritical)] -> returned status"""
-        inputs = {ctxp: Ptr("ctx"), payp: Ptr("payload"), genctx: Ptr("gctx"), tmplp: Ptr("T"), genp: Ptr("gen"), trp: Ptr("tr"), trlen: 0, trsize: 15}
-        for i, (tag, fl, mult) in enumerate(template):
-            inputs["T[%d].tag" % i] = tag
-            inputs["T[%d].flags" % i] = fl
-            inputs["T[%d].multiple" % i] = mult
-            inputs["T[%d].type" % i] = OBJ
-            inputs["T[%d].getValue" % i] = Ptr("get%d" % i)
-            inputs["T[%d].descr" % i] = Ptr("d%d" % i)
-        for j, (tag, nc) in enumerate(seq):
-            inputs["tlv%d->tag" % j] = tag
-        pos = [0]
-        seen = {}
-
-        def fallback(I, p, node, name, args, cv):
-            if name is None and isinstance(cv, Ptr) and cv.what == "gen":
-                key = lvalue_key(strip(node["a"][1])["e"], I.fn)
-                j = pos[0]
-                pos[0] += 1
-                I.write(p, key, Ptr("tlv%d" % j) if j < len(seq) else 0)
-                return 0
-            if name is None and isinstance(cv, Ptr) and cv.what.startswith("get"):
-                i = int(cv.what[3:])
-                a1 = strip(node["a"][1])
-                while isinstance(a1, dict) and a1.get("k") == "cast":
-                    a1 = strip(a1["e"])
-                key = lvalue_key(a1["e"], I.fn) if isinstance(a1, dict) and a1.get("k") == "un" else None
-                if key:
-                    I.write(p, key, Ptr("val") if seen.get(i) else 0)
-                return 0
-            return TOP
-
-        def extract_obj(I, p, node, args):
-            # &tmpl[i]  -> which entry?
-            a = args[1]
-            if isinstance(a, Ptr) and isinstance(a.what, str) and a.what.startswith("T["):
-                seen[int(a.what[2:a.what.index("]")])] = True
-            return 0
-
-        def tag_of(I, p, node, args):
-            a = args[0]
-            if isinstance(a, Ptr) and a.what.startswith("tlv"):
-                return seq[int(a.what[3:])][0]
-            return TOP
-
-        def noncrit(I, p, node, args):
-            a = args[0]
-            if isinstance(a, Ptr) and a.what.startswith("tlv"):
-                return seq[int(a.what[3:])][1]
-            return TOP
-
-        def mset(I, p, node, args):
-            for k in range(8):
-                I.write(p, "templateHit[%d]" % k, 0)
-            return TOP
-        ov = {"getTemplateLength": lambda I, p, n, a: len(template), "extractObject": extract_obj, "extractComposite": extract_obj,
-              "KSI_TLV_getTag": tag_of, "KSI_TLV_isNonCritical": noncrit, "memset": mset, "track_str": lambda I, p, n, a: Ptr("s"),
-              "KSI_snprintf": lambda I, p, n, a: 0, "KSI_TLV_free": lambda I, p, n, a: TOP}
-        I = Interp(fe, inputs=inputs, call_model=succeed_model(prog, ov, fallback), on_unknown="stop", prog=prog, loop_bound=12)
-        paths = I.run()
-        return paths
+        return template_scenario(prog, template, seq)
 
     M, L0, L1, O0, O1, FO, FI, LA = F["MANDATORY"], F["LEAST_ONE_G0"], F["LEAST_ONE_G1"], F["MOST_ONE_G0"], F["MOST_ONE_G1"], F["FIXED_ORDER"], F["FIRST"], F["LAST"]
     A, B, C, X = 0x01, 0x02, 0x03, 0x7e
